@@ -94,7 +94,8 @@ class Failure(dict):
 class T:
     """per-case context handed to harness case functions"""
 
-    def __init__(self, symbolic, values=None, choices=None, seed=0, consts=False):
+    def __init__(self, symbolic, values=None, choices=None, seed=0, consts=False, shared=None):
+        self.shared = shared if shared is not None else {}
         self.symbolic = symbolic
         self.values = values or {}
         self.replay_choices = choices
@@ -147,6 +148,12 @@ class T:
             C.assume.append(cond.t)
         elif not cond:
             raise Infeasible('assumption false')
+
+    def draws(self):
+        """values of the random choice points taken so far on this path"""
+        if self.symbolic:
+            return [c for c, _ in C.choices]
+        return list(self._cr.log)
 
     # ---- obligations
     def _flat(self, x):
@@ -249,6 +256,13 @@ class T:
     def _fail(self, label, key, kind, detail, model):
         vals = {}
         if self.symbolic and not self.consts:
+            if model is None and C.path:
+                # obligation decided without the solver (constants on a forked path): witness = model of the path condition
+                pc = C.pc()
+                try:
+                    r, model = core.check(pc + core.relevant(pc), want_model=True)
+                except Exception:
+                    model = None
             for name, a in self.inputs.items():
                 out = real_np.empty(a.shape)
                 for idx in real_np.ndindex(*a.shape):
@@ -306,7 +320,7 @@ class ConcreteRandom:
     def __init__(self, choices):
         self.choices = list(choices or [])
         self.k = 0
-        self.rp = P.RandomProxy()
+        self.log = []
 
     def next(self, n):
         if self.k < len(self.choices):
@@ -314,7 +328,9 @@ class ConcreteRandom:
         else:
             v = 0
         self.k += 1
-        return min(v, n - 1)
+        v = min(v, n - 1)
+        self.log.append(v)
+        return v
 
 
 def run_symbolic(case, cfg, max_paths=2000, consts=False, seed=0, timeout_ms=None):
@@ -328,9 +344,10 @@ def run_symbolic(case, cfg, max_paths=2000, consts=False, seed=0, timeout_ms=Non
     res = dict(paths=0, infeasible=0, obligations=0, discharged=0, unknown=0, failures=[], notes=[], samples=[],
                unsupported=[])
     tvals = {}
+    shared = {}
 
     def once():
-        t = T(True, values=tvals, consts=consts, seed=seed)
+        t = T(True, values=tvals, consts=consts, seed=seed, shared=shared)
         try:
             case(t, cfg)
         finally:
@@ -366,15 +383,28 @@ def run_symbolic(case, cfg, max_paths=2000, consts=False, seed=0, timeout_ms=Non
                 res['obligations'] += 1
     except PathLimit as e:
         res['unsupported'].append(str(e))
+    fin = getattr(case, 'finish', None)
+    if fin is not None and not res['unsupported']:
+        # cross-path (aggregate) obligations, e.g. counting over the complete outcome space
+        t = T(True, values=tvals, consts=consts, seed=seed, shared=shared)
+        C.reset_path()
+        fin(t, cfg)
+        for f in t.failures:
+            f['kind'] = 'aggregate'
+            f['all_choices'] = shared.get('all_choices', [])
+        res['obligations'] += t.obligations
+        res['discharged'] += t.discharged
+        res['failures'].extend(t.failures)
     return res
 
 
-def run_concrete(case, cfg, values=None, choices=None, seed=0):
+def run_concrete(case, cfg, values=None, choices=None, seed=0, shared=None):
     """execute case(T, cfg) with float inputs on the unmodified numpy path"""
     P.uninstall()
     core.C.symbolic = False
-    t = T(False, values=dict(values or {}), choices=choices, seed=seed)
+    t = T(False, values=dict(values or {}), choices=choices, seed=seed, shared=shared)
     cr = ConcreteRandom(choices)
+    t._cr = cr
     saved = {}
     rp = _ReplayRandom(cr)
     for name in ('randint', 'permutation', 'shuffle', 'choice', 'rand', 'random', 'uniform'):
@@ -451,6 +481,20 @@ class _ReplayRandom:
 
 def replay_failure(case, cfg, failure):
     """does the failure reproduce on the unmodified float implementation?"""
+    if failure.get('kind') == 'aggregate':
+        shared = {}
+        vals = failure.get('values')
+        for ch in failure.get('all_choices', []):
+            t, status, exc = run_concrete(case, cfg, values=vals, choices=ch, shared=shared)
+            vals = t.values
+            if status == 'exception':
+                return False, f'concrete run raised {type(exc).__name__}: {exc}'
+        t = T(False, values=vals, shared=shared)
+        case.finish(t, cfg)
+        for f in t.failures:
+            if f['label'] == failure['label']:
+                return True, f['detail']
+        return False, 'aggregate obligation holds on the float implementation'
     t, status, exc = run_concrete(case, cfg, values=failure.get('values'), choices=failure.get('choices'))
     if failure.get('kind') == 'exception':
         if status == 'exception' and type(exc).__name__ == failure.get('exc'):
